@@ -497,26 +497,30 @@ pub fn par(input: &str, out: &mut impl std::io::Write) {
                 writeln!(out, "P {} => {}", t[1..].join(" "), r).unwrap();
             }
             "A" => a_op = t[1..].iter().map(|s| s.to_string()).collect(),
-            "B" => b_op = t[1..].iter().map(|s| s.to_string()).collect(),
+            "B" => { b_op = t[1..].iter().map(|s| s.to_string()).collect(); writeln!(out, "BOP {}", t[1..].join(" ")).unwrap(); }
             _ => {}
         }
     }
     rt::RELEASE_CLONES.store(false, SeqCst);
     rt::CLONES_HELD.store(0, SeqCst);
+    rt::RELEASE_EST.store(false, SeqCst);
+    rt::EST_HELD.store(0, SeqCst);
+    let head_f: Option<usize> = input.lines().next().and_then(|l| l.split_whitespace().nth(2).map(|s| s.to_string())).and_then(|s| s[1..].parse().ok());
     let done_a = Arc::new(Mutex::new(None::<String>));
     let done_b = Arc::new(Mutex::new(None::<String>));
     let (da, ao) = (done_a.clone(), a_op.clone());
     let ha = std::thread::spawn(move || {
         rt::HOLD_CLONES.with(|h| h.set(true));
+        rt::HOLD_EST.with(|h| h.set(true));
         let toks: Vec<&str> = ao.iter().map(|s| s.as_str()).collect();
         let r = run_op(&toks);
         *da.lock().unwrap() = Some(r);
     });
     let t0 = Instant::now();
-    while rt::CLONES_HELD.load(SeqCst) == 0 && t0.elapsed() < Duration::from_millis(500) && done_a.lock().unwrap().is_none() {
+    while rt::CLONES_HELD.load(SeqCst) == 0 && rt::EST_HELD.load(SeqCst) == 0 && t0.elapsed() < Duration::from_millis(500) && done_a.lock().unwrap().is_none() {
         std::thread::sleep(Duration::from_millis(1));
     }
-    let held = rt::CLONES_HELD.load(SeqCst);
+    let held = rt::CLONES_HELD.load(SeqCst) + rt::EST_HELD.load(SeqCst);
     let (db, bo) = (done_b.clone(), b_op.clone());
     let hb = std::thread::spawn(move || {
         let toks: Vec<&str> = bo.iter().map(|s| s.as_str()).collect();
@@ -529,6 +533,7 @@ pub fn par(input: &str, out: &mut impl std::io::Write) {
     }
     let b_early = done_b.lock().unwrap().is_some();
     rt::RELEASE_CLONES.store(true, SeqCst);
+    rt::RELEASE_EST.store(true, SeqCst);
     let dl = Instant::now() + Duration::from_secs(4);
     while (done_a.lock().unwrap().is_none() || done_b.lock().unwrap().is_none()) && Instant::now() < dl {
         std::thread::sleep(Duration::from_millis(2));
@@ -544,6 +549,15 @@ pub fn par(input: &str, out: &mut impl std::io::Write) {
     writeln!(out, "SCHED reached={} b_blocked={} deadlock=0 overlap=1", (held > 0) as u8, (!b_early) as u8).unwrap();
     writeln!(out, "RA {}", done_a.lock().unwrap().clone().unwrap()).unwrap();
     writeln!(out, "RB {}", done_b.lock().unwrap().clone().unwrap()).unwrap();
+    // the cache of the case's function at quiescence
+    if let Some(f) = head_f {
+        if corpus::flavour(f) != 't' {
+            let s = take_snapshot(f);
+            let q: Vec<String> = s.queue.iter().map(|k| k.to_string()).collect();
+            let st: Vec<String> = s.store.iter().map(|(k, e, fr, _)| format!("{}:{}:{}", k, e, fr)).collect();
+            writeln!(out, "W {} | {} | {}", f, if q.is_empty() { "-".into() } else { q.join(",") }, if st.is_empty() { "-".into() } else { st.join(";") }).unwrap();
+        }
+    }
     writeln!(out, "END").unwrap();
 }
 
